@@ -70,6 +70,8 @@ def to_fp(v):
         return v.t
     if v.kind in ("int", "decstr") and v.fp is not None:
         return v.fp
+    if v.kind == "int" and z3.is_int_value(z3.simplify(v.t)):
+        return fpval(float(z3.simplify(v.t).as_long()))  # a constant: no Int->Real->FP conversion term
     if v.kind == "int":
         # exact for |n| < 2**53 (callers bound their ints); z3: int -> real -> fp (RNE)
         return z3.fpRealToFP(RNE, z3.ToReal(v.t), F64)
